@@ -233,9 +233,23 @@ class Interp:
             if m == 'and_then' and isinstance(recv, tuple) and recv[0] in ('Err', 'None'):
                 return recv
             if m in ('map_err',) and isinstance(recv, tuple) and recv[0] == 'Err':
-                return ('Err',)
+                return ('Err',) if len(recv) == 1 else ('Err', ('#mapped',))
             if m in ('map_err',):
                 return recv
+            if m == 'then_some' and isinstance(recv, bool):
+                return ('Some', args[0]) if recv else ('None',)
+            if m == 'then' and isinstance(recv, bool):
+                return ('Some', self.apply(args[0], [], depth)) if recv else ('None',)
+            if m == 'transpose' and isinstance(recv, tuple) and recv and recv[0] in ('Ok', 'Err'):
+                # Result<Option<T>, E> -> Option<Result<T, E>>
+                if recv[0] == 'Err':
+                    return ('Some', recv)
+                inner = recv[1]
+                if isinstance(inner, tuple) and inner and inner[0] == 'None':
+                    return ('None',)
+                if isinstance(inner, tuple) and inner and inner[0] == 'Some':
+                    return ('Some', ('Ok', inner[1]))
+                raise Undecided('transpose of %r' % (recv,))
             if m == 'transpose' and isinstance(recv, tuple) and recv:
                 # Option<Result<T, E>> -> Result<Option<T>, E>
                 if recv[0] == 'None':
@@ -283,6 +297,8 @@ class Interp:
         raise Undecided('expression kind %s' % k)
 
     def apply(self, clo, args, depth):
+        if callable(clo):
+            return clo(list(args))
         if isinstance(clo, tuple) and clo and clo[0] == '#fn':
             return self.call(clo[1], list(args), depth)
         if not (isinstance(clo, tuple) and clo and clo[0] == '#closure'):
